@@ -126,6 +126,8 @@ def r1_checkers(ctx):
                     lo_ok = True
                 elif v and (arr(x[2], "max") or arr(x[2], "min")) and isinstance(x[3][1], (int, float)) and x[3][1] not in (lo, hi):
                     other = True
+                elif v and ((x[1] == ">=" and x[3] == const(hi) and arr(x[2], "max")) or (x[1] == "<=" and x[3] == const(lo) and arr(x[2], "min"))):
+                    other = True          # the limit itself is rejected: [lo, hi] is documented as closed
         if hi_ok and lo_ok:
             return True
         if other or not mention:
